@@ -99,6 +99,7 @@ def check(run, scen=None):
     suffix = "_thorough" if thorough else ""
     replaying = scen is not None
     m = None
+    long_scen = []
     dyn_pool, dyn_future = None, None
     if not replaying:
         core.build_jet()
@@ -122,6 +123,12 @@ def check(run, scen=None):
             raise core.ToolError(f"Gen_Tui printed {len(hists)} histories for {g.distinct} states (M: {m.distinct})")
         fan = [[k, 0] for k in sorted(alpha[0]["alphabet"])] + [["Tick", w] for w in sorted(alpha[0]["ticks"])]
         scen = [{"n": h["n"], "m": h["m"], "keys": h["keys"], "fan": fan} for h in hists]
+        # long queries (beyond the bound of the exhaustive search): scripted by TLC, same fan, same judge
+        gl = core.tlc_ok("gen/Gen_TuiLong", xmx="2g", timeout=600)
+        long_scen = [{"n": h["n"], "m": h["m"], "keys": h["keys"], "fan": fan} for h in gl.printed_json()]
+        if not long_scen:
+            raise core.ToolError("Gen_TuiLong printed nothing")
+        scen += long_scen
     # replay + record, streamed into shard files
     nshards = 1 if replaying else (4 if thorough else 3)
     paths = [os.path.join(run.work, f"trace.{i}.ndjson") for i in range(nshards)]
@@ -129,6 +136,7 @@ def check(run, scen=None):
     counts = [0] * nshards
     index = [[] for _ in range(nshards)]          # per shard: (scenario index, fan index) of each line
     before_states, n_calls, unreached = set(), 0, 0
+    long_states, n_bfs = set(), len(scen) - len(long_scen)
     samples = []
     core.build_jet()
     starts = list(range(0, len(scen), CHUNK))
@@ -144,7 +152,7 @@ def check(run, scen=None):
                 index[sh].append((c0 + si, fi))
                 if ev["before"] is not last:      # one object per expanded state
                     last = ev["before"]
-                    before_states.add(json.dumps(last, sort_keys=True))
+                    (before_states if c0 + si < n_bfs else long_states).add(json.dumps(last, sort_keys=True))
             counts[sh] += len(events)
             n_calls += len(events)
             if len(samples) < 3 and events:
@@ -188,6 +196,8 @@ def check(run, scen=None):
         "update_calls_judged": n_calls,
         "impl_states_expanded": len(before_states),
         "histories_not_replayable": unreached,
+        "long_query_scripts": len(long_scen),
+        "long_query_states_expanded": len(long_states),
         "tables": sorted({(s["n"], s["m"]) for s in scen}),
         "rejected_calls": n_rej,
         "design_conformance": {"mismatches_on_accepted_calls": pure_mismatch, "calls": n_calls,
@@ -222,7 +232,8 @@ def check(run, scen=None):
     run.assumptions += [
         "the table is fixed while keys are handled (the property's quantifier); rows that expire between two "
         "keys are outside update() and outside C17",
-        "search queries are explored up to the length bound of the configuration; a query is abstracted to the "
+        "search queries are explored exhaustively up to the length bound of the configuration, and by scripts "
+        "with 30..100 characters of one kind (ASCII, 2-byte, 3-byte) followed by every event; a query is abstracted to the "
         "UTF-8 length of its characters (1: 'x' and the function keys, 2: U+00E9, 3: U+65E5)",
         "tracked aircraft are empty state vectors; m - n in {0,1,2} (thorough: also m = 0)",
         "the driver projects Jet1090 to (items.len, state_vectors.len, selected, should_quit, is_search_mode, "
